@@ -188,37 +188,51 @@ def _eval_expr(ix, fi, expr, env_syms=None):
 
 def r2_4(run):
     ix = run.index
-    # ---- PAMB writers
+    # ---- PAMB writers: whole-hook forward substitution (arrnf), so that the HEIGHT a PAMB value is computed from is the
+    # HEIGHT the same rows finally carry (a PAMB computed before HEIGHT is stored sees the unset column)
+    from ..arrnf import ANF, FULL, base_of, key as tkey, match, show as tshow
     n_w = 0
+    PAMB = HEIGHT = None
     for c in ix.all_classes():
-        for name in ("create_pit_node_entries",):
-            m = c.methods.get(name)
-            if not m:
+        m = c.methods.get("create_pit_node_entries")
+        if not m:
+            continue
+        r = ANF(ix, m, options={"transient": False}).run()
+        if PAMB is None:
+            from ..arrnf import expect
+            jf = ix.func("pandapipes.component_models.junction_component.Junction.create_pit_node_entries")
+            PAMB, HEIGHT = expect(ix, jf, "PAMB"), expect(ix, jf, "HEIGHT")
+            if PAMB[0] != "k" or HEIGHT[0] != "k":
+                raise AnalysisError("PAMB / HEIGHT are not node-pit constants in junction_component")
+        stores = r.stores()
+        for s_ in stores:
+            if not (len(s_.index) == 2 and s_.index[1] == PAMB):
                 continue
-            for n in own_walk(m.node):
-                if isinstance(n, ast.Assign) and isinstance(n.targets[0], ast.Subscript):
-                    t = n.targets[0]
-                    sl = t.slice
-                    if isinstance(sl, ast.Tuple) and len(sl.elts) == 2 and U(sl.elts[1]) == "PAMB":
-                        n_w += 1
-                        pit = U(t.value)
-                        run.analysed(m)
-                        got = _eval_expr(ix, m, n.value)
-                        hcol = Poly.sym("col", pit, "i", "idx_node", "HEIGHT")
-                        baro = run_spec(ix, "barometric", {"height": g(hcol)})[0]
-                        from ..algebra import compare as _cmp
-                        if not _cmp(phys.tonum(got), baro)[0]:
-                            run.ob("pamb-writer|%s" % c.name, True,
-                                   "PAMB of %s rows is the barometric pressure of the same rows' HEIGHT" % pit,
-                                   run.where(m, n))
-                        else:
-                            # copy from the junction the internal node sits on (valve nodes)
-                            p_ = got.plain()
-                            ok = p_ is not None and len(p_.atoms()) == 1 and list(p_.atoms())[0][-1] == "PAMB" \
-                                and p_.single_term() is not None and p_.single_term()[1] == 1
-                            run.ob("pamb-writer|%s" % c.name, ok,
-                                   "PAMB is the barometric pressure of the own HEIGHT or a copy of the PAMB of the "
-                                   "junction the internal node sits on (got %s)" % got, run.where(m, n))
+            n_w += 1
+            run.analysed(m)
+            root = tkey(base_of(s_.base))
+            hs = [h for h in stores if tkey(base_of(h.base)) == root and len(h.index) == 2 and h.index[1] == HEIGHT
+                  and tkey(h.index[0]) == tkey(s_.index[0])]
+            where = run.where(m, s_.node)
+            if not hs:
+                run.ob("pamb-writer|%s|height-of-same-rows-written" % c.name, False,
+                       "the hook that writes PAMB of a set of node rows also writes their HEIGHT", where)
+                continue
+            H = hs[-1].value          # the height these rows finally carry
+            v = s_.value
+            baro = v[0] == "call" and v[1][0] == "f" and v[1][1].endswith(".p_correction_height_air") and len(v[2]) == 1
+            if baro:
+                ok = tkey(v[2][0]) == tkey(H)
+                what = "PAMB = p_correction_height_air(HEIGHT finally stored for the same rows)"
+                detail = "argument: %s ; HEIGHT: %s" % (tshow(v[2][0])[:150], tshow(H)[:150])
+            else:
+                # copy of the PAMB of the node the HEIGHT is copied from
+                b1 = match(("idx", ("?", "g"), (("?", "rows"), PAMB)), v)
+                b2 = match(("idx", ("?", "g"), (("?", "rows"), HEIGHT)), H)
+                ok = b1 is not None and b2 is not None and tkey(b1["g"]) == tkey(b2["g"]) and tkey(b1["rows"]) == tkey(b2["rows"])
+                what = "PAMB is copied from the node rows the HEIGHT is copied from"
+                detail = "PAMB: %s ; HEIGHT: %s" % (tshow(v)[:150], tshow(H)[:150])
+            run.ob("pamb-writer|%s" % c.name, ok, what, where, detail=detail)
     run.ob("pamb-writers-found", n_w >= 3, "junction, pipe-node and valve-node PAMB writers found (%d)" % n_w, "component_models")
     # ---- result dictionary
     gb = ix.func(RE_ + ".get_basic_branch_results")
